@@ -26,6 +26,9 @@ def seeds(ctx):
     keys = sorted(fams)
     for k in keys[:: (3 if ctx.tier == "quick" else 1)]:
         progs["fam_" + k] = fams[k]
+    for k in keys:
+        if k.startswith("extern_"):              # the extern/unsafe seeds are always in
+            progs["fam_" + k] = fams[k]
     for k in range(6 if ctx.tier == "quick" else 60):
         progs["gen_%d_%d" % (ctx.seed, k)] = Gen(ctx.seed * 2000003 + k).program()
     return progs
